@@ -1,8 +1,8 @@
 #!/bin/bash
-# usage: seedverify.sh <ID> [features]   -- confirm a seeded change in its scratch worktree /tmp/mut/<ID>
+# usage: seedverify.sh <ID> [suffix]   -- confirm a seeded change in its scratch worktree /tmp/mut/<ID>
 # (tests pass with it, demonstration fails with it and passes without), then store it under /verif/seeded/<ID>/
 set -u
-id=$1; wt=/tmp/mut/$id; lc=$(echo $id | tr A-Z a-z)
+id=$1; sfx=${2:-}; wt=/tmp/mut/$id; lc=$(echo $id | tr A-Z a-z)
 export CARGO_NET_OFFLINE=true CARGO_TARGET_DIR=$wt/target
 cd $wt || exit 2
 git checkout -q -- src; git apply OUT/patch.diff || exit 2
@@ -15,6 +15,6 @@ cargo test --offline --all-features --test demo_$lc > OUT/demo_without.log 2>&1;
 echo "$id suite_exit=$suite demo_with_exit=$with demo_without_exit=$without"
 grep -h "^test result" OUT/suite.log OUT/demo_with.log OUT/demo_without.log
 if [ $suite = 0 ] && [ $with != 0 ] && [ $without = 0 ]; then
-  mkdir -p /verif/seeded/$id; cp OUT/patch.diff /verif/seeded/$id/patch.diff; cp OUT/demo_$lc.rs /verif/seeded/$id/; cp OUT/meta.md /verif/seeded/$id/agent_notes.md
+  mkdir -p /verif/seeded/$id$sfx; cp OUT/patch.diff /verif/seeded/$id$sfx/patch.diff; cp OUT/demo_$lc.rs /verif/seeded/$id$sfx/; cp OUT/meta.md /verif/seeded/$id$sfx/agent_notes.md
   echo CONFIRMED
 fi
